@@ -30,6 +30,7 @@ func init() {
 			{Name: "triples", Run: runTriples},
 			{Name: "chains", Run: runChains},
 			{Name: "forheaders", Run: runForHeaders},
+			{Name: "noin", Run: runNoIn},
 			{Name: "statements", Run: runStatements},
 			{Name: "nesting", Run: runNesting},
 			{Name: "asi", Run: runASI},
